@@ -54,7 +54,47 @@ def scale(a, c):
     return LinV({k: (t, c * co) for k, (t, co) in a.terms.items()}, a.taint)
 
 
+def comp_sums(t, out=None, seen=None):
+    """ids of the comprehension reductions (sum / max / min over a comprehension the sequence theory does not model) in a term"""
+    out = set() if out is None else out
+    seen = set() if seen is None else seen
+    stack = [t]
+    while stack:
+        x = stack.pop()
+        if x.get_id() in seen:
+            continue
+        seen.add(x.get_id())
+        if z3.is_app(x):
+            if x.decl().name().startswith('reduce_') or x.decl().name().startswith('comp_'):
+                out.add(x.get_id())
+                continue
+            stack.extend(x.children())
+    return out
+
+
+def comp_mismatch(terms_a, terms_b):
+    """Do both sides contain comprehension reductions the other side lacks?  Two differently written comprehensions may denote the
+    same sum (a sum over a sub-list versus the full sum minus one term); the encoding cannot tell, so such a difference is
+    inconclusive, never a refutation."""
+    A, B = set(), set()
+    for t in terms_a:
+        comp_sums(t, A)
+    for t in terms_b:
+        comp_sums(t, B)
+    return bool(A - B) and bool(B - A)
+
+
+_INCONCLUSIVE = [0]
+
+
+def inconclusive_marker():
+    _INCONCLUSIVE[0] += 1
+    return z3.Bool('havoc_differently_written_comprehension_sums!%d' % _INCONCLUSIVE[0])
+
+
 def equal(a, b):
+    if comp_mismatch([x for t, c in a.terms.values() for x in (t, c)], [x for t, c in b.terms.values() for x in (t, c)]):
+        return inconclusive_marker()
     keys = set(a.terms) | set(b.terms)
     cs = []
     for k in keys:
@@ -74,6 +114,25 @@ class LinHooks:
     def init(self, eng, st):
         for s in self.sites:
             st.ghost.setdefault('n_site_' + s['name'], z3.IntVal(0))
+        # stores into each container in textual order: a site with nth=k speaks about the k-th of them (of=<how many there are>)
+        self.store_ord = {}
+        per = {}
+        stores = [n for n in ast.walk(eng.fn) if isinstance(n, (ast.Assign, ast.AugAssign))]
+        stores.sort(key=lambda n: (n.lineno, n.col_offset))
+        for n in stores:
+            for t in (n.targets if isinstance(n, ast.Assign) else [n.target]):
+                r = t
+                while isinstance(r, ast.Subscript):
+                    r = r.value
+                if r is not t and isinstance(r, ast.Name):
+                    per[r.id] = per.get(r.id, 0) + 1
+                    self.store_ord[id(t)] = per[r.id]
+        for s in self.sites:
+            if 'of' in s and per.get(s['container'], 0) != s['of']:
+                raise E.Unsupported('store anchors drifted: %d stores into `%s`, the contract was written for %d' % (per.get(s['container'], 0), s['container'], s['of']))
+
+    def _applies(self, site, tgt):
+        return 'nth' not in site or self.store_ord.get(id(tgt)) == site['nth']
 
     # canonical V term of a value (for arguments of non-linear maps)
     def canon(self, eng, v):
@@ -123,6 +182,14 @@ class LinHooks:
 
     def call(self, eng, st, name, recv, args, kw, node):
         short = name.split('.')[-1]
+        if recv is None and name == 'same' and len(args) == 2 and isinstance(args[0], E.Num) and isinstance(args[1], E.Num):
+            if comp_mismatch([args[0].real()], [args[1].real()]):
+                return E.BoolV(inconclusive_marker())
+            return E.BoolV(args[0].real() == args[1].real())
+        if recv is None and name == 'same' and len(args) == 2 and isinstance(args[0], E.Obj) and isinstance(args[1], E.Obj):
+            if comp_mismatch([args[0].t], [args[1].t]):
+                return E.BoolV(inconclusive_marker())
+            return NotImplemented
         if recv is None and name == 'same' and len(args) == 2 and (isinstance(args[0], LinV) or isinstance(args[1], LinV)):
             a, b = lin(args[0]), lin(args[1])
             if a is None or b is None:
@@ -138,7 +205,27 @@ class LinHooks:
             return E.Obj(f(c, *av), taint=recv.taint)
         return NotImplemented
 
+    def _root_and_key(self, eng, st, node, k_last):
+        """x[k1][k2]... -> ('x', V term of the key path)"""
+        keys, cur = [k_last], node.value
+        while isinstance(cur, ast.Subscript):
+            keys.append(eng.ev(st, cur.slice))
+            cur = cur.value
+        if not isinstance(cur, ast.Name):
+            return None, None
+        keys.reverse()
+        ks = [eng.to_V(x) for x in keys]
+        kt = ks[0] if len(ks) == 1 else eng.uf('keypath%d' % len(ks), *([V] * len(ks) + [V]))(*ks)
+        return cur.id, kt
+
     def getitem(self, eng, st, o, k, node):
+        if isinstance(node.value, ast.Subscript):
+            nm, kt = self._root_and_key(eng, st, node, k)
+            if nm in self.vector_dicts:
+                last = (st.__dict__.get('_lin_last') or {}).get(nm)
+                if last is not None and z3.eq(last[0], kt):
+                    return last[1]
+            return NotImplemented
         if isinstance(node.value, ast.Name):
             nm = node.value.id
             if nm in self.vector_dicts:
@@ -151,10 +238,35 @@ class LinHooks:
         return NotImplemented
 
     def setitem(self, eng, st, tgt, o, k, val, node):
+        if isinstance(tgt.value, ast.Subscript):
+            nm, kt = self._root_and_key(eng, st, tgt, k)
+            if nm is None:
+                return NotImplemented
+            for site in self.sites:
+                if site['container'] != nm or not self._applies(site, tgt):
+                    continue
+                t, facts = eng.spec(site['spec'], st, {'__arg': val, '__key': k}, mode='prove')
+                s2 = st.fork()
+                for x in facts:
+                    s2.assume(x)
+                eng.oblige(s2, 'site/%s@L%d' % (site['name'], node.lineno), t, kind='store-site')
+                st.ghost['n_site_' + site['name']] = st.ghost.get('n_site_' + site['name'], z3.IntVal(0)) + 1
+            if nm in self.vector_dicts:
+                d = dict(st.__dict__.get('_lin_last') or {})
+                d[nm] = (kt, val)
+                st._lin_last = d
+                # the nested container changes identity (fresh value for the root), the stored value is remembered above
+                eng._in_store = True
+                try:
+                    st.env[nm] = E.Obj(eng.fresh('upd_' + nm, V), cls='dict', taint=getattr(st.env.get(nm), 'taint', E.FALSE))
+                finally:
+                    eng._in_store = False
+                return True
+            return NotImplemented
         if isinstance(tgt.value, ast.Name):
             nm = tgt.value.id
             for site in self.sites:
-                if site['container'] != nm:
+                if site['container'] != nm or not self._applies(site, tgt):
                     continue
                 t, facts = eng.spec(site['spec'], st, {'__arg': val, '__key': k}, mode='prove')
                 s2 = st.fork()
